@@ -400,3 +400,7 @@ def run(ctx):
     # ---- R05.10 restart mode: the forced stop at grace expiry is followed by the queued Start (timer cleared when it fires; owned by C06)
     ctx.rule("R05.10", "a restart whose grace has expired (or is zero) goes on to its Start: the expired timer is cleared when it is turned into the forced stop")
     ctx.borrow("C06", ["R06.3"], "R05.10", "recv gating: forced control only after expiry and with the timer cleared on both routes")
+
+    ctx.rule("R05.11", "a change already collected in the debounce window is handed to the action handler together with an urgent event that follows it, and events the filter rejects do not restart the window: the change is followed by a run")
+    ctx.borrow("C01", ["R01.1", "R01.2"], "R05.11", "batch conservation and returned set of the collect loop")
+    ctx.borrow("C02", ["R02.1"], "R05.11", "window start rule of the collect loop")
